@@ -1,5 +1,7 @@
 import Tahoe.Crypto.Lemmas
 import Tahoe.Crypto.UseLemmas
+import Tahoe.Crypto.ObjectsLemmas
+import Tahoe.Base.Sha256Lemmas
 /-! C17 — key and secret derivations match the specification (property theorems only; helper lemmas in
     `Tahoe/Crypto/Lemmas.lean`, `Tahoe/Crypto/UseLemmas.lean`, `Tahoe/Base/NetstringEnc.lean`, `Tahoe/Base/Sha256.lean`).
 
@@ -35,8 +37,8 @@ import Tahoe.Crypto.UseLemmas
     | tags single-purpose (a change/confusion of derivations cannot collide) | `tags_pairwise_distinct`, `domain_separated` (guard shown tight by `domain_separation_needs_secret_length`) | — |
     | convergent key | `spec_form_convergence`, `convergence_rejects_bad_parameters`, `tag_binding_convergence` | extraction + correspondence |
     | "for all inputs" | all of the above are ∀-statements without size bounds; where the code asserts (`len(peerid) == 20`) or raises (k,n range) the theorems say so (`*_defined_iff`, `if … then … else none`) | correspondence covers the assert / ValueError paths |
-    | call results do not depend on call history (no stale per-server memo) | trivial in the model (the model functions are pure); NOT a theorem about the code | correspondence only: seeded call histories on long-lived objects with colliding server identities |
-    | SHA-256 / SHA-1 are the FIPS functions | not covered (only `sha256_length`); the Lean SHA-256 is validated by NIST vectors (`#guard`) | correspondence with hashlib on boundary lengths |
+    | call results do not depend on call history (no stale per-server memo) | `node_answer_independent_of_history`, `node_same_call_same_answer`, `node_secrets_after_any_history`, `checker_answers_independent_of_history` (object machines of `Tahoe/Crypto/Objects.lean`: any history, any position; `init_from_cap` is the only state change) | correspondence: `nodehist` / `chkhist` run the same seeded and corpus histories (re-announced servers, re-keying) on the real `MutableFileNode` / `Checker` objects; `SecretHolder`, `Tahoe2ServerSelector` rounds and dirnode functions stay correspondence only |
+    | SHA-256 / SHA-1 are the FIPS functions | padding only: `sha256_padding_as_specified`, `sha256_padding_injective`, `domain_separated_blocks`, plus `sha256_length`; the compression functions, constants and the block loop are NOT proved against FIPS 180-4 (validated by NIST vectors, `#guard`) | correspondence with hashlib on boundary lengths; `pad` vs the FIPS padding formula |
     | "any change would make files unreachable" (consequence) | not a theorem; it is the reason the tag/truncation pins exist | monitor: known-answer vectors of test_hashutil.py and lease.rst |
 
     SHA-256 itself is the executable definition of `Tahoe/Base/Sha256.lean`; nothing below depends on its
@@ -746,5 +748,146 @@ theorem announced_server_gets_tubid_chain (t : Transport) (a : Announcement) (le
 example : (⟨[1], List.replicate 20 7, some (List.replicate 20 9), none⟩ : Announcement).tubid.length = 20 := by decide
 
 end Use
+
+/-! ## call histories on long-lived objects: every answer is a function of the attributes in force and of the
+    call's own argument — never of earlier calls
+
+Model: `Tahoe/Crypto/Objects.lean` (`MutableFileNode` with `init_from_cap` + the three secret getters,
+immutable `Checker` with its file secrets computed once).  `keysAfter nd pre` is the fold of the `init_from_cap`
+calls of `pre` alone; `specAnswer` (ObjectsLemmas) is the spec's value for one call. -/
+section Histories
+open Tahoe.Crypto.Use Tahoe.Crypto.Objects
+
+/-- **History independence.**  In any call history on a `MutableFileNode`, at any position, the answer is the
+    specification's value for (the attributes set by the last `init_from_cap` before it, this call's server) —
+    whatever getters were called before, on whatever servers, in whatever order; and the getters leave the
+    node's attributes alone. -/
+theorem node_answer_independent_of_history (nd : NodeObj) (pre : List NodeOp) (op : NodeOp) (post : List NodeOp) :
+    (nd.run (pre ++ op :: post)).2[pre.length]? = some (specAnswer (keysAfter nd pre) op) ∧
+    (nd.run (pre ++ op :: post)).1 = keysAfter nd (pre ++ op :: post) ∧
+    (keysAfter nd pre).leaseSecret = nd.leaseSecret ∧
+    ((∀ o ∈ pre, ∀ wk, o ≠ NodeOp.initFromCap wk) → keysAfter nd pre = nd) := by
+  refine ⟨run_answer_at nd pre op post, run_fst nd _, ?_, ?_⟩
+  · induction pre generalizing nd with
+    | nil => rfl
+    | cons p rest ih =>
+      simp only [keysAfter, List.foldl_cons]
+      have := ih (rekey nd p)
+      simp only [keysAfter] at this
+      rw [this]; cases p <;> rfl
+  · intro h
+    induction pre generalizing nd with
+    | nil => rfl
+    | cons p rest ih =>
+      have hp : rekey nd p = nd := by
+        cases p with
+        | initFromCap wk => exact absurd rfl (h _ List.mem_cons_self wk)
+        | _ => rfl
+      simp only [keysAfter, List.foldl_cons, hp]
+      exact ih nd (fun o ho => h o (List.mem_cons_of_mem _ ho))
+
+/-- the same call after two different histories gives the same answer whenever the same cap is in force — in
+    particular after any two getter-only histories (seeded change C17-a made the second differ) -/
+theorem node_same_call_same_answer (nd : NodeObj) (pre1 pre2 post1 post2 : List NodeOp) (op : NodeOp)
+    (h : keysAfter nd pre1 = keysAfter nd pre2) :
+    (nd.run (pre1 ++ op :: post1)).2[pre1.length]? = (nd.run (pre2 ++ op :: post2)).2[pre2.length]? := by
+  rw [run_answer_at, run_answer_at, h]
+
+example : let sOld : Server := ⟨[1], List.replicate 20 7, List.replicate 20 3, 0⟩
+          let sNew : Server := ⟨[1], List.replicate 20 8, List.replicate 20 4, 0⟩   -- same server id, re-announced
+          keysAfter (NodeObj.new [5] [6]) [.getRenewalSecret sOld, .getWriteEnabler sOld]
+            = keysAfter (NodeObj.new [5] [6]) [.getCancelSecret sNew] := rfl
+
+/-- … and that answer is the documented formula: lease.rst chain over the lease secret, the storage index of
+    the cap in force and THIS call's lease seed; the write enabler over the write key in force and THIS call's
+    write-enabler seed -/
+theorem node_secrets_after_any_history (nd : NodeObj) (pre post : List NodeOp) (s : Server)
+    (hl : s.leaseSeed.length = 20) (hw : s.weSeed.length = 20) :
+    (nd.run (pre ++ .getRenewalSecret s :: post)).2[pre.length]? = some (some (
+      let crs := sha256 (sha256 (netstring nd.leaseSecret ++ ascii "allmydata_client_renewal_secret_v1"))
+      let frs := sha256 (sha256 (netstring (ascii "allmydata_file_renewal_secret_v1") ++ netstring crs
+                  ++ netstring (keysAfter nd pre).storageIndex))
+      sha256 (sha256 (netstring (ascii "allmydata_bucket_renewal_secret_v1") ++ netstring frs ++ netstring s.leaseSeed)))) ∧
+    (nd.run (pre ++ .getWriteEnabler s :: post)).2[pre.length]? = some (some (
+      sha256 (sha256 (netstring (ascii "allmydata_mutable_write_enabler_master_and_nodeid_to_write_enabler_v1")
+        ++ netstring (sha256 (sha256 (netstring (ascii "allmydata_mutable_writekey_to_write_enabler_master_v1")
+             ++ (keysAfter nd pre).writekey)))
+        ++ netstring s.weSeed)))) := by
+  have hsec := (node_answer_independent_of_history nd pre (.getRenewalSecret s) post).2.2.1
+  refine ⟨?_, ?_⟩
+  · rw [run_answer_at]
+    simp only [specAnswer, hl, if_true, hsec]
+    rw [chain_renewal_secret _ _ _ hl]
+  · rw [run_answer_at]
+    simp only [specAnswer, hw, if_true]
+    rw [spec_form_ssk_write_enabler]
+    simp only [hw, if_true]
+
+example : (⟨[1], List.replicate 20 7, List.replicate 20 3, 0⟩ : Server).leaseSeed.length = 20 ∧
+          (⟨[1], List.replicate 20 7, List.replicate 20 3, 0⟩ : Server).weSeed.length = 20 := by decide
+
+/-- the immutable `Checker` computes its file secrets once; in any history of `_get_renewal_secret(seed)` /
+    `_get_cancel_secret(seed)` calls the kept values never change and each answer is the lease.rst chain for
+    that call's seed -/
+theorem checker_answers_independent_of_history (leaseSecret si : List UInt8) (ops : List CheckerOp) :
+    ((CheckerObj.new leaseSecret si).run ops).1 = CheckerObj.new leaseSecret si ∧
+    ((CheckerObj.new leaseSecret si).run ops).2 = ops.map (fun op => match op with
+      | .getRenewalSecret seed => renewalSecretChain leaseSecret si seed
+      | .getCancelSecret seed => cancelSecretChain leaseSecret si seed) := by
+  refine ⟨checker_run_fst _ _, ?_⟩
+  rw [checker_run_snd]
+  apply List.map_congr_left
+  intro op _
+  cases op <;> rfl
+
+example : ((CheckerObj.new [1] [2]).run [.getRenewalSecret (List.replicate 20 7), .getCancelSecret (List.replicate 20 8),
+    .getRenewalSecret (List.replicate 20 7)]).2.length = 3 := rfl
+
+end Histories
+
+/-! ## what is proved about SHA-256 itself: the Merkle–Damgård padding (FIPS 180-4 §5.1.1)
+
+The compression function and the constants are validated by the NIST vectors and by correspondence with hashlib,
+not proved; the padding — the part that turns "different hasher inputs" into "different block sequences" — is. -/
+section Padding
+
+/-- FIPS 180-4 §5.1.1: the padded message is the message, the byte 0x80, the fewest zero bytes that make the
+    total a multiple of 64 bytes, and the 64-bit big-endian bit length -/
+theorem sha256_padding_as_specified (m : List UInt8) :
+    (pad m).length % 64 = 0 ∧
+    m.length + 9 ≤ (pad m).length ∧ (pad m).length < m.length + 9 + 64 ∧
+    (∃ rest, pad m = m ++ 0x80 :: rest) ∧
+    (∃ front, pad m = front ++ be64 (8 * m.length) ∧ front.length = (pad m).length - 8) ∧
+    (∀ x ∈ ((pad m).drop (m.length + 1)).take ((pad m).length - m.length - 9), x = 0) := by
+  refine ⟨pad_length_mod m, (pad_length_le m).1, (pad_length_le m).2, pad_prefix m, pad_suffix m, ?_⟩
+  intro x hx
+  have hd : (pad m).drop (m.length + 1) = List.replicate ((64 - (m.length + 9) % 64) % 64) 0 ++ be64 (8 * m.length) := by
+    simp only [pad]
+    rw [List.drop_append]
+    simp [List.drop_eq_nil_of_le]
+  have hl : (pad m).length - m.length - 9 = (64 - (m.length + 9) % 64) % 64 := by
+    simp only [pad, List.length_append, List.length_cons, List.length_replicate, be64_length]; omega
+  rw [hd, hl, List.take_append_of_le_length (by simp), List.take_of_length_le (by simp)] at hx
+  exact (List.mem_replicate.mp hx).2
+
+example : (pad [1, 2, 3]).length = 64 := by decide
+
+/-- the padding is injective on SHA-256's domain (messages below 2^64 bits) -/
+theorem sha256_padding_injective (m1 m2 : List UInt8) (h1 : m1.length < 2 ^ 61) (h2 : m2.length < 2 ^ 61)
+    (h : pad m1 = pad m2) : m1 = m2 := pad_injective h1 h2 h
+
+example : ([1, 2, 3] : List UInt8).length < 2 ^ 61 := by decide
+
+/-- **domain separation reaches the compression chain**: derivations of different kinds feed SHA-256's block
+    loop different block sequences (inputs below 2^61 bytes) -/
+theorem domain_separated_blocks (d1 d2 : Deriv) (w1 : d1.WellFormed) (w2 : d2.WellFormed)
+    (hk : d1.kind ≠ d2.kind) (p1 p2 : List UInt8) (h1 : d1.pre = some p1) (h2 : d2.pre = some p2)
+    (l1 : p1.length < 2 ^ 61) (l2 : p2.length < 2 ^ 61) : pad p1 ≠ pad p2 :=
+  fun h => domain_separated d1 d2 w1 w2 hk p1 p2 h1 h2 (pad_injective l1 l2 h)
+
+example : ∃ p1 p2, (Deriv.block [1]).pre = some p1 ∧ (Deriv.ueb [1]).pre = some p2 ∧ (Deriv.block [1]).kind ≠ (Deriv.ueb [1]).kind :=
+  ⟨_, _, rfl, rfl, by decide⟩
+
+end Padding
 
 end Tahoe.C17
